@@ -71,6 +71,30 @@ class Resolver:
                 return [("inst", f"{PKG}.{k}")]
             if ann.id in mi.classes:
                 return [("inst", f"{PKG}.{mi.classes[ann.id]}")]
+            # a module-level type alias: `MeasuredType = Union[Dimension, Prefix, Quantity, Unit]`
+            sts = mi.globals_assigned.get(ann.id) or []
+            if len(sts) == 1 and isinstance(sts[0], (ast.Assign, ast.AnnAssign)) and getattr(sts[0], "value", None) is not None \
+                    and isinstance(sts[0].value, (ast.Subscript, ast.BinOp, ast.Name)) and not getattr(self, "_alias_depth", 0):
+                self._alias_depth = 1
+                try:
+                    got = self.ann_alts(mi, sts[0].value)
+                finally:
+                    self._alias_depth = 0
+                if got and not all(k == "other" for k, _ in got):
+                    return got
+            if ann.id in mi.imports:
+                m_, a_ = mi.imports[ann.id]
+                om = self.prog.modules.get(m_)
+                if om is not None and a_ and om is not mi and not getattr(self, "_alias_depth", 0):
+                    sts2 = om.globals_assigned.get(a_) or []
+                    if len(sts2) == 1 and getattr(sts2[0], "value", None) is not None and isinstance(sts2[0].value, (ast.Subscript, ast.BinOp)):
+                        self._alias_depth = 1
+                        try:
+                            got = self.ann_alts(om, sts2[0].value)
+                        finally:
+                            self._alias_depth = 0
+                        if got and not all(k == "other" for k, _ in got):
+                            return got
             return [("other", ann.id)]
         if isinstance(ann, ast.Subscript):
             head = ast.unparse(ann.value).split(".")[-1]
